@@ -19,7 +19,8 @@ THEOREMS = ["C04_decider_sound", "C04_main", "C04_version_rows", "C04_failed_not
             "C04_per_migration", "C04_nontransactional", "C04_success", "C04_exception_kind_irrelevant",
             "C04_inconsistent_refuted", "C04g_decider_sound", "C04g_main", "C04_rows_are_heads",
             "C04_failed_upgrade_not_implied", "C04_failed_downgrade_still_implied", "C04_begin_transaction_table",
-            "C04_atomicity_table", "C04u_main", "C04u_decider_sound", "C04_decider_complete"]
+            "C04_atomicity_table", "C04u_main", "C04u_decider_sound", "C04_decider_complete", "C04_query_irrelevant",
+            "C04_multi_db"]
 CASE_TIMEOUT = 60
 TRUSTED = [
     "the database small-step semantics of Model/Txn.v (TxDDL, ImplicitCommitDDL, Pysqlite) and the SQLAlchemy 2.0 autobegin / "
@@ -43,7 +44,10 @@ RULE = ("exhaustive small scope: {pysqlite default, transactional recipe} x tran
         "downgrade to r1} x linear histories of 1-3 migrations (4 DDL/DML layouts; 6 histories whose upgrade AND downgrade bodies "
         "contain an autocommit_block section, also empty / first / only) x EVERY failure position (before/after each statement, "
         "before and after an autocommit section, before each statement inside it, at its end, and in the on_version_apply "
-        "callback after the bookkeeping) plus the run without failure; the exception raised is an Exception subclass, "
+        "callback after the bookkeeping) plus the run without failure; also TWO databases (two SQLite files, recipe/default) configured one after "
+        "the other through ONE EnvironmentContext with different transaction_per_migration / explicit transactional_ddl on each call "
+        "and a failure at every position on the later one, and env.py variants that run a query through the context or on the "
+        "connection between configure() and begin_transaction(); the exception raised is an Exception subclass, "
         "KeyboardInterrupt or SystemExit (all three for callback failures and 1-migration histories, rotating otherwise); "
         "the same histories and body failure positions are also run through the REAL alembic/templates/generic/env.py of the "
         "tree under test (command.init -t generic, default settings, default pysqlite); thorough adds seeded random histories of up to 5 migrations with up to 4 items and random autocommit sections. "
@@ -203,6 +207,43 @@ def _dup_cases(revs, tag):
                    "target": ("r%d" % to) if to > 0 else "base", "revs": revs, "fail": None, "exc": "exc", "tag": tag, "dup": True}
 
 
+def _multi_cases(revs, tag, rot):
+    """two databases (two SQLite files) configured one after the other through ONE EnvironmentContext with different
+    transaction_per_migration / transactional_ddl on each call; a failure at every position on the later database"""
+    base = [c for c in _cases_for(revs, tag, False, rot)
+            if c["kind"] == "pysqlite" and c["tddl"] is False and c["tpm"] is False and c["external"] is False
+            and (c["pre"] is None or c["target"] == "base")]
+    kinds = [("pysqlite", "txddl"), ("txddl", "pysqlite")]
+    ovs = [("unset", "unset"), (True, "unset"), ("unset", True), (False, True)]
+    for c in base:
+        for (k1, k2), (t1, t2), p1, p2 in itertools.product(kinds, ovs, [False, True], [False, True]):
+            for k in ((0, 1) if c["fail"] is None else (1,)):
+                c2 = dict(c)
+                c2["multi"] = [{"kind": k1, "tddl": t1, "tpm": p1}, {"kind": k2, "tddl": t2, "tpm": p2}]
+                c2["k"] = k
+                c2["tag"] = tag
+                yield c2
+
+
+def _query_cases(revs, tag, rot):
+    """env.py runs a query through the context / on the connection between configure() and begin_transaction()"""
+    for c in _cases_for(revs, tag, False, rot):
+        if not c["external"]:
+            for q in ("context", "connection"):
+                c2 = dict(c)
+                c2["query"] = q
+                yield c2
+
+
+def _shared_cases(revs, tag, rot):
+    """SEARCH STREAM ONLY: one engine.connect() connection shared between `current` and the command"""
+    for c in _cases_for(revs, tag, False, rot):
+        if not c["external"]:
+            c2 = dict(c)
+            c2["shared"] = True
+            yield c2
+
+
 def _rand_history(rnd):
     n = rnd.randint(1, 5)
     lays = []
@@ -226,7 +267,7 @@ def generate(tier, seed):
     hs = [([P[o]], "n1", o == 0) for o in range(4)]
     hs += [([P[o], P[(o + 1) % 4]], "n2", False) for o in (0,)]
     hs += [([A1], "n1-auto", True), ([A2], "n1-auto", False), ([A3], "n1-auto", False)]
-    hs += [([A1, P[0]], "n2-auto", False), ([P[1], A1], "n2-auto", False)]
+    hs += [([P[1], A1], "n2-auto", False)]
     hs += [([P[0], A1, P[3]], "n3-auto", False)]
     hs += [([P[1], T1], "n2-try", False), ([P[0], T1, P[3]], "n3-try", False)]
     for lays, tag, allx in hs:
@@ -237,6 +278,8 @@ def generate(tier, seed):
         yield from _branched_cases(name, rot)
     for lays, tag in (([P[0], P[1]], "n2"), ([P[1], A1], "n2-auto")):
         yield from _sql_cases(_mk_history(lays), tag + "-sql", rot)
+    yield from _multi_cases(_mk_history([P[0], P[1]]), "n2-multidb", rot)
+    yield from _query_cases(_mk_history([P[0], P[1]]), "n2-query", rot)
     for lays, tag in (([P[0], P[1]], "n2"), ([P[2], A1], "n2-auto"), ([P[0], A1, P[3]], "n3-auto")):
         yield from _dup_cases(_mk_history(lays), tag + "-dup")
     if tier == "thorough":
@@ -254,6 +297,7 @@ def generate(tier, seed):
 def search(tier, seed):
     rnd = random.Random(seed * 104729 + 4)
     rot = [seed]
+    yield from _shared_cases(_mk_history([LAYOUTS[0], LAYOUTS[1]]), "n2-shared", rot)
     for _ in range(25):
         revs = _rand_history(rnd)
         cs = list(_cases_for(revs, "random", False, rot))
@@ -270,46 +314,69 @@ from alembic import context
 import sqlalchemy as sa
 from sqlalchemy import event
 a = context.config.attributes
-eng = sa.create_engine(a["url"], poolclass=sa.pool.NullPool)
-if a["kind"] == "txddl":
-    # the documented recipe for real transactional DDL on pysqlite
-    @event.listens_for(eng, "connect")
-    def _connect(dbapi_connection, rec):
-        dbapi_connection.isolation_level = None
 
-    @event.listens_for(eng, "begin")
-    def _begin(conn):
-        conn.exec_driver_sql("BEGIN")
+
+def _engine(url, kind):
+    eng = sa.create_engine(url, poolclass=sa.pool.NullPool)
+    if kind == "txddl":
+        # the documented recipe for real transactional DDL on pysqlite
+        @event.listens_for(eng, "connect")
+        def _connect(dbapi_connection, rec):
+            dbapi_connection.isolation_level = None
+
+        @event.listens_for(eng, "begin")
+        def _begin(conn):
+            conn.exec_driver_sql("BEGIN")
+    return eng
 
 
 def _cb(ctx, step, heads, run_args):
     f = a.get("fail")
-    if f and f[2] == "cb" and step.up_revision_id == f[0]:
+    if f and f[2] == "cb" and step.up_revision_id == f[0] and (len(f) < 4 or f[3] == a.get("cur", 0)):
         raise a["exc"]("boom")
 
 
-def _go(connection):
-    context.configure(connection=connection, transaction_per_migration=a["tpm"], transactional_ddl=a["tddl"],
-                      on_version_apply=_cb, version_table_pk=a.get("pk", True))
+def _go(connection, kw):
+    context.configure(connection=connection, on_version_apply=_cb, version_table_pk=a.get("pk", True), **kw)
+    q = a.get("query")
+    if q == "context":            # e.g. env.py logs the current heads before it starts
+        context.get_context().get_current_heads()
+    elif q == "connection":
+        connection.execute(sa.text("select 1"))
     with context.begin_transaction():
         context.run_migrations()
 
 
-try:
-    if context.is_offline_mode():
-        # --sql: the script goes to config.output_buffer; no connection is made
-        context.configure(url=a["url"], literal_binds=True, transaction_per_migration=a["tpm"],
-                          transactional_ddl=a["tddl"], on_version_apply=_cb)
-        with context.begin_transaction():
-            context.run_migrations()
-    elif a["external"]:
-        with eng.begin() as connection:
-            _go(connection)
-    else:
-        with eng.connect() as connection:
-            _go(connection)
-finally:
-    eng.dispose()
+_kw = dict(transaction_per_migration=a.get("tpm", False), transactional_ddl=a.get("tddl"))
+if context.is_offline_mode():
+    # --sql: the script goes to config.output_buffer; no connection is made
+    context.configure(url=a["url"], literal_binds=True, on_version_apply=_cb, **_kw)
+    with context.begin_transaction():
+        context.run_migrations()
+elif a.get("connection") is not None:
+    # a connection the caller made with engine.connect() and shares between commands (cookbook: sharing a connection)
+    _go(a["connection"], _kw)
+elif a.get("dbs"):
+    # several databases through ONE EnvironmentContext (the multidb env.py, online)
+    for idx, db in enumerate(a["dbs"]):
+        a["cur"] = idx
+        eng = _engine(db["url"], db["kind"])
+        try:
+            with eng.connect() as connection:
+                _go(connection, db["kw"])
+        finally:
+            eng.dispose()
+else:
+    eng = _engine(a["url"], a["kind"])
+    try:
+        if a["external"]:
+            with eng.begin() as connection:
+                _go(connection, _kw)
+        else:
+            with eng.connect() as connection:
+                _go(connection, _kw)
+    finally:
+        eng.dispose()
 '''
 
 
@@ -417,6 +484,24 @@ def _normalise(h):
 
 def run_case(h):
     h = _normalise(h)
+    multi = h.get("multi")
+    if multi:
+        # the case is database h["k"] of several configured through one EnvironmentContext; the failure is on the last one
+        h = dict(h)
+        kk = h["k"]
+        h["kind"], h["tpm"] = multi[kk]["kind"], multi[kk]["tpm"]
+        args = [None if m["tddl"] == "unset" else m["tddl"] for m in multi[:kk + 1]]
+        h["tddl_term"] = "(eff_tddl_multi false %s)" % cf.lst(cf.opt(x, cf.boolean) for x in args)
+        acc = None
+        for x in args:
+            acc = x if x is not None else acc
+        h["tddl"] = acc
+        h["external"] = False
+        if kk != len(multi) - 1:
+            h["model_fail"] = None
+    if h.get("shared"):
+        h = dict(h)
+        h["external"] = True          # what Alembic sees: the connection is already in a transaction
     import logging
     import sqlite3
     import warnings
@@ -452,16 +537,19 @@ def run_case(h):
                 "from alembic import op, context\nrevision = 'r%d'\ndown_revision = %r\ndepends_on = %r\n\n"
                 "def _f(direction, p):\n"
                 "    f = context.config.attributes.get('fail')\n"
-                "    if f and f[0] == revision and f[1] == direction and f[2] == p:\n"
+                "    if f and f[0] == revision and f[1] == direction and f[2] == p and \\\n"
+                "            (len(f) < 4 or f[3] == context.config.attributes.get('cur', 0)):\n"
                 "        raise context.config.attributes['exc']('boom')\n\n%s\n%s" % (
                     j, _parents(r.get("down", [j - 1] if j > 1 else [])), _parents(r.get("deps", [])),
                     _fn("upgrade", "up", r["up"]), _fn("downgrade", "dn", r["dn"])))
-        path = os.path.join(d, "db.sqlite")
+        paths = [os.path.join(d, "db%d.sqlite" % n) for n in range(len(multi))] if multi else [os.path.join(d, "db.sqlite")]
+        for pth in paths:
+            con = sqlite3.connect(pth)
+            con.execute("CREATE TABLE log (v INTEGER)")
+            con.commit()
+            con.close()
+        path = paths[h["k"]] if multi else paths[0]
         url = "sqlite:///" + path
-        con = sqlite3.connect(path)
-        con.execute("CREATE TABLE log (v INTEGER)")
-        con.commit()
-        con.close()
 
         def cfg(fail):
             if template:
@@ -473,8 +561,14 @@ def run_case(h):
                 c = Config()
                 c.set_main_option("script_location", d)
             c.attributes.update(url=url, kind=h["kind"], tpm=h["tpm"], tddl=h["tddl"], external=h["external"],
-                                fail=fail, exc=exc_cls, pk=not h.get("dup"))
+                                fail=fail, exc=exc_cls, pk=not h.get("dup"), query=h.get("query"))
+            if multi:
+                c.attributes["dbs"] = [{"url": "sqlite:///" + pth, "kind": m["kind"],
+                                        "kw": dict([("transaction_per_migration", m["tpm"])] +
+                                                   ([] if m["tddl"] == "unset" else [("transactional_ddl", m["tddl"])]))}
+                                       for pth, m in zip(paths, multi)]
             c.output_buffer = io.StringIO()
+            c.stdout = io.StringIO()
             return c
 
         # set-up: bring the database to the starting revision (a run without failure, default settings)
@@ -490,8 +584,10 @@ def run_case(h):
                 c0.attributes.update(url=url, kind="pysqlite", fail=None, exc=exc_cls)
             else:
                 c0 = cfg(None)
-            c0.attributes.update(tpm=True, tddl=None, external=False)
-            command.upgrade(c0, h["pre"])
+            c0.attributes.update(tpm=True, tddl=None, external=False, query=None, dbs=None)
+            for pth in paths:
+                c0.attributes.update(url="sqlite:///" + pth, kind="pysqlite")
+                command.upgrade(c0, h["pre"])
         if h.get("dup"):
             # a second copy of every current row (the table was created without primary key)
             con = sqlite3.connect(path)
@@ -517,17 +613,38 @@ def run_case(h):
         if h["fail"] is not None:
             j, where, p = h["fail"]
             fail = ("r%d" % j, "up" if up else "dn", "cb" if where == "cb" else p)
+            if multi:
+                fail = fail + (len(multi) - 1,)
         raised = None
+        shared_conn = shared_eng = None
+        if h.get("shared"):
+            # the caller shares ONE engine.connect() connection (no begin()) between two commands
+            import sqlalchemy as sa
+            from sqlalchemy import event
+            shared_eng = sa.create_engine(url, poolclass=sa.pool.NullPool)
+            if h["kind"] == "txddl":
+                @event.listens_for(shared_eng, "connect")
+                def _connect(dbapi_connection, rec):
+                    dbapi_connection.isolation_level = None
+
+                @event.listens_for(shared_eng, "begin")
+                def _begin(conn):
+                    conn.exec_driver_sql("BEGIN")
+            shared_conn = shared_eng.connect()
         sql = bool(h.get("sql"))
         spec = h["target"]
         if sql:
             spec = "%s:%s" % (h["pre"], h["target"]) if (h["pre"] is not None or not up) else h["target"]
         from alembic import util as _util
         try:
+            cc = cfg(fail)
+            if shared_conn is not None:
+                cc.attributes["connection"] = shared_conn
+                command.current(cc)             # read-only, yet it leaves its autobegun transaction open
             if up:
-                command.upgrade(cfg(fail), spec, sql=sql)
+                command.upgrade(cc, spec, sql=sql)
             else:
-                command.downgrade(cfg(fail), spec, sql=sql)
+                command.downgrade(cc, spec, sql=sql)
         except _util.CommandError:
             if not h.get("dup"):
                 raise
@@ -540,36 +657,44 @@ def run_case(h):
             raised = "SystemExit"
         except AssertionError:
             raised = "AssertionError"         # autocommit_block() under a caller-held transaction
+        if shared_conn is not None:
+            shared_conn.close()
+            shared_eng.dispose()
+            shared_conn = None
         after = _state(url)
     finally:
         shutil.rmtree(d, ignore_errors=True)
 
     steps = []
     has_auto = False
+    mfail = h.get("model_fail", h["fail"])
     for j, isup in order:
         body = revs[j - 1]["up" if isup else "dn"]
         has_auto = has_auto or any(it[0] in ("a", "t") for it in body)
         slot, cb = None, False
-        if h["fail"] is not None and h["fail"][0] == j:
-            if h["fail"][1] == "cb":
+        if mfail is not None and mfail[0] == j:
+            if mfail[1] == "cb":
                 cb = True
             else:
-                slot = _slots(body)[h["fail"][2]]
+                slot = _slots(body)[mfail[2]]
         steps.append("mkMstep %d %s %s %s" % (j, cf.boolean(isup), _coq_body(body, slot), cf.boolean(cb)))
     eff_tddl = bool(h["tddl"])          # SQLiteImpl.transactional_ddl = False unless overridden
     cin = "(mkUin (mkGin %s %s %s %s %s %s %s %s) %s)" % (
-        cf.graph(graph), "TxDDL" if h["kind"] == "txddl" else "Pysqlite", cf.boolean(eff_tddl), cf.boolean(h["tpm"]),
+        cf.graph(graph), "TxDDL" if h["kind"] == "txddl" else "Pysqlite", h.get("tddl_term") or cf.boolean(eff_tddl),
+        cf.boolean(h["tpm"]),
         cf.boolean(h["external"]), cf.lst(steps), _db(before),
         {"exc": "ExcException", "kbd": "ExcKeyboardInterrupt", "exit": "ExcSystemExit"}[h.get("exc", "exc")],
         cf.boolean(sql))
-    ran = bool(h.get("dup")) or h["fail"] is not None and any(j == h["fail"][0] for j, _ in order)
+    ran = bool(h.get("dup")) or mfail is not None and any(j == mfail[0] for j, _ in order)
     cout = "(mkOut %s %s)" % (_db(after), cf.boolean(raised is not None))
     one = h["external"] or (eff_tddl and not h["tpm"])
     shape = "%s%s%s-%s-%s%s-%s" % ("generic-template-" if h.get("env") == "template" else "",
                                    ("branched-" if h["tag"].startswith("branched") else "") + ("sql-" if sql else "") +
-                                   ("dup-rows-" if h.get("dup") else ""), h["kind"], h["cmd"],
+                                   ("dup-rows-" if h.get("dup") else "") + ("multidb%d-" % h["k"] if multi else "") +
+                                   ("query-%s-" % h["query"] if h.get("query") else "") + ("shared-conn-" if h.get("shared") else ""),
+                                   h["kind"], h["cmd"],
                                    "one-txn" if one else "per-migration", "-autocommit" if has_auto else "",
-                               "ok" if not ran else ("fail-bookkeeping" if h["fail"] is None else "fail-cb" if h["fail"][1] == "cb" else "fail-body") +
+                               "ok" if not ran else ("fail-bookkeeping" if mfail is None else "fail-cb" if mfail[1] == "cb" else "fail-body") +
                                ("" if h.get("exc", "exc") == "exc" else "-BaseException"))
     return dict(cin=cin, cout=cout, out={"before": before, "after": after, "raised": raised},
                 nontrivial=ran, shape=shape)
